@@ -68,49 +68,41 @@ theorem hexAddCell_edges (k : Kernel) (hfs : List Nat) (chk : Bool) : (k.hexAddC
     accepted it under the same topology-check flag -/
 theorem hexAddCell_stored (k : Kernel) (hfs : List Nat) (chk : Bool) (c : Nat) (h : (k.hexAddCell hfs chk).2 = some c) :
     ∃ l, (k.hexAddCell hfs chk).1.cellAt c = l ∧ k.hexAddCell hfs chk = k.addCell l chk ∧ (∀ x, x ∈ l ↔ x ∈ hfs) ∧
-      (chk = true → l.Nodup ∧ ClosedSurface k l) := by
-  obtain ⟨hc, hf, l, hcells, hl, hv, hcase⟩ := hexAddCell_accept k hfs chk c h
-  have hcell : (k.hexAddCell hfs chk).1.cellAt c = l := by unfold cellAt; rw [hcells, hc]; simp [nC]
+      (chk = true → l.Nodup ∧ ClosedSurface k l ∧ k.oppPairsDisjoint l = true) := by
+  obtain ⟨hc, _, _, _, _, hv, _⟩ := hexAddCell_accept k hfs chk c h
+  obtain ⟨l, heq, hpath, hop⟩ := hexAddCell_eq_addCell k hfs chk c h
   have hlen : hfs.length = 6 := by
     unfold hexAddCell at h; split at h
     · simp at h
     · rename_i h6; simpa using h6
   have hne : hfs ≠ [] := by intro e; rw [e] at hlen; simp at hlen
-  -- the call is a base-class call on `l`
-  have hsp : (k.spanVertCount hfs != 8) = false := by rw [hexAddCell_accept_span k hfs chk c h]; rfl
-  have hval : hfs.any (fun hf => (k.faceAt (eOf hf)).length != 4) = false := by
-    rw [List.any_eq_false]; intro x hx; simp [hv x hx]
-  have heq : k.hexAddCell hfs chk = k.addCell l chk := by
-    unfold hexAddCell
-    simp only [hlen, hval, hsp, bne_self_eq_false, Bool.false_eq_true, if_false]
-    rcases hcase with ⟨e1, e2⟩ | ⟨e1, e2, e3⟩ | ⟨e1, e2, e3⟩
-    · subst e1; subst e2; rfl
-    · subst e1; subst e2; simp only [Bool.not_true, Bool.false_eq_true, if_false, e3, if_true]
-    · subst e1; simp only [Bool.not_true, Bool.false_eq_true, if_false, e2, e3]
-  -- on the checked path the base class has run its closed-surface test on `l`
+  have hacc : k.addCellAccepts l chk = true := by
+    rw [heq] at h; unfold addCell at h; split at h
+    · assumption
+    · simp at h
+  have hcell : (k.hexAddCell hfs chk).1.cellAt c = l := by
+    rw [heq]; unfold addCell; rw [if_pos hacc]
+    unfold Kernel.cellAt; rw [addCellCore_cells, hc]; simp [nC]
   have hclosed : chk = true → ClosedSurface k l := by
     intro hct; subst hct
-    rw [heq] at h
-    have hacc : k.addCellAccepts l true = true := by
-      unfold addCell at h; split at h
-      · assumption
-      · simp at h
     unfold addCellAccepts at hacc; simp at hacc
     exact (cellCheck_iff k l).mp hacc.2
   have hsub : ∀ x ∈ l, x ∈ hfs := by
-    rcases hcase with ⟨_, e⟩ | ⟨_, e, _⟩ | ⟨_, _, e⟩
-    · rw [e]; exact fun x hx => hx
+    rcases hpath with ⟨e, _⟩ | ⟨_, _, e⟩
     · rw [e]; exact fun x hx => hx
     · have h4 : (k.hfHes (hfs.getD 0 0)).length = 4 := by
         rw [hfHes_length]; exact hv _ (getD_mem_lt hfs 0 (by omega))
       exact hexReorder_subset k hfs l h4 hne e
+  have hl6 : l.length = 6 := by
+    rcases hpath with ⟨e, _⟩ | ⟨_, _, e⟩
+    · rw [e]; exact hlen
+    · exact hexReorder_length k hfs l e
   have hnd : chk = true → l.Nodup := fun hct =>
     nodup_of_flatMap_nodup l k.hfHes (fun x hx => by
       have : (k.hfHes x).length = 4 := by rw [hfHes_length]; exact hv _ (hsub x hx)
       intro e; rw [e] at this; simp at this) (hclosed hct).1
-  refine ⟨l, hcell, heq, ?_, fun hct => ⟨hnd hct, hclosed hct⟩⟩
-  rcases hcase with ⟨_, e⟩ | ⟨_, e, _⟩ | ⟨hct, _, _⟩
-  · rw [e]; exact fun x => Iff.rfl
+  refine ⟨l, hcell, heq, ?_, fun hct => ⟨hnd hct, hclosed hct, hop hct⟩⟩
+  rcases hpath with ⟨e, _⟩ | ⟨hct, _, _⟩
   · rw [e]; exact fun x => Iff.rfl
   · exact fun x => ⟨hsub x, subset_of_nodup_subset l hfs (hnd hct) hsub (by omega) x⟩
 
@@ -153,7 +145,7 @@ theorem hexAddCell_checked_shape (k : Kernel) (hfs : List Nat) (c : Nat) (h : (k
     rw [← hcell, this]; exact hl6
   have he := hexAddCell_edges k hfs true
   have hcs : ClosedSurface (k.hexAddCell hfs true).1 l := by
-    have h0 := (hcl rfl).2
+    have h0 := (hcl rfl).2.1
     unfold ClosedSurface cellHalfedges at *
     rw [show (k.hexAddCell hfs true).1.hfHes = k.hfHes from funext (hfHes_congr k _ hf)]
     exact h0
